@@ -88,7 +88,11 @@ def gen_cases(tier, seed):
                 L = rng.choice([0, 1, 2, 3, 32, 255, rng.randrange(256)]) if big else rng.choice([0, 1, 2, 3, 8, 32, rng.randrange(64)])
                 if rng.random() < 0.7 and L == 0:
                     L = 1
-                ops.append("A:%d:%s" % (n, hx([rng.randrange(256) for _ in range(L)])))
+                if rng.random() < 0.15:
+                    # the caller's data lies INSIDE the list being extended (an element duplicated or moved to the end): pointer into the block
+                    ops.append("D:%d:%d" % (n, rng.randrange(5)))
+                else:
+                    ops.append("A:%d:%s" % (n, hx([rng.randrange(256) for _ in range(L)])))
             elif k < 0.7:
                 ops.append("R:%d" % n)
             elif k < 0.8:
@@ -102,6 +106,9 @@ def gen_cases(tier, seed):
     # there): 256 elements of 254 body bytes are exactly 65536 bytes, then further adds, counts, a set and removals
     big = ["A:221:%s" % hx([rng.randrange(256) for _ in range(254)]) for _ in range(255)]
     cases.append("tagops 0 %s A:7:%s A:9:0102 K:221 K:9 C:11 R:7 K:7 R:9" % (" ".join(big), hx([rng.randrange(256) for _ in range(254)])))
+    # duplicate / move-to-end histories: every element of a short list re-added from a pointer into the list itself
+    for kind in range(4):
+        cases.append("tagops %d A:0:616263 A:3:06 A:221:%s D:114:0 D:7:2 D:0:1 R:0 D:9:0 K:0 D:5:9 R:221 D:3:3" % (kind, hx([rng.randrange(256) for _ in range(40)])))
     cases.append("tagops 3 %s A:7:%s A:9:01 R:221 K:221" % (" ".join(big), hx([rng.randrange(256) for _ in range(253)])))
     return cases, {"bfs_histories": n_bfs, "bfs_depth": depth, "distinct_model_states": states, "random_histories": nr,
                    "total": len(cases)}
